@@ -182,7 +182,7 @@ def run(tier):
     ctx = Ctx("C09", tier, "other", technique="regex->z3 (real var/str_var regexes) + real name visitors on z3 string proxies")
     from coco.b09.grammar import grammar
 
-    maxlen = 4 if tier == "quick" else 6
+    maxlen = 4 if tier == "quick" else 8
     ctx.bounds.update({"max_name_length": maxlen, "kinds": list(KINDS), "positions": len(POSITIONS)})
     stats = smt.reset_stats()
     var_pat = grammar["var"].re.pattern
